@@ -35,6 +35,7 @@ ASSUMPTIONS = [
 MIN_NONTRIVIAL_FRACTION = 0.15
 RULE += ' Added after the seeded rounds: 1/25 of the histories contain 70, 140 or 1010 alternating mutate / rollback (or refused mutate) calls on the root genome.'
 RULE += ' Round 7: a `decoy` (pbt/props/_decoys.py): a second object of the class, differently configured and put through a misleading script (same prompts / names / ids, opposite verdicts and limits), is built in the same process after the object under test.'
+RULE += " Round 10: a third of the generated genomes are built with silent=False (the constructor default; output captured): printing is not behaviour."
 EXHAUSTIVE_NOTE = {"quick": "all op sequences of length 1..3 over 16 ops x 4 authorisation modes (4*(16+256+4096) = 17472), complete",
                    "thorough": "all op sequences of length 1..4 over 16 ops x 4 authorisation modes (279616), complete"}
 
@@ -80,7 +81,7 @@ _rep = st.tuples(st.just("rep"), st.sampled_from([70, 140, 1010]),
 def strategy(tier):
     plain = st.lists(_op, min_size=1, max_size=25)
     long = st.tuples(st.lists(_op, max_size=4), _rep, st.lists(_op, min_size=1, max_size=8)).map(lambda t: t[0] + [t[1]] + t[2])
-    return _decoys.with_decoy(_strategy(st.integers(0, 24).flatmap(lambda k: long if k == 0 else plain)))
+    return _with_loud(_decoys.with_decoy(_strategy(st.integers(0, 24).flatmap(lambda k: long if k == 0 else plain))))
 
 
 def _strategy(ops):
@@ -142,7 +143,7 @@ class _Model:
         return cfg
 
 
-def judge(case):
+def _judge(case):
     from operon_ai.state.genome import ExpressionLevel, Gene, GeneType, Genome
     out = Outcome()
     approved_pairs = None if case["approve"] is None else {(n, _c(v)) for n, v in case["approve"]}
@@ -158,7 +159,7 @@ def judge(case):
              for n, v, t, lv in case["genes"]]
     try:
         g0 = Genome(genes=genes, allow_mutations=allow, mutation_rate=case["rate"],
-                    on_mutation=callback if approved_pairs is not None else None, silent=True)
+                    on_mutation=callback if approved_pairs is not None else None, silent=not case.get("loud"))
     except Exception as e:
         out.fail("raise:%s:init" % type(e).__name__, "Genome() raised %s" % e, None)
         return out
@@ -370,3 +371,19 @@ def _after_mutate(out, i, op, g, m, gn, v, ret, stats0, authorised, what="mutate
                      % (what, stats0["mutations_count"], stats1["mutations_count"], stats0["approved_mutations"], stats1["approved_mutations"]), d)
             return False
     return True
+
+
+def _with_loud(strat):
+    """a third of the generated cases build the object with silent=False (the constructor default): what it prints goes to a scratch buffer"""
+    return st.tuples(strat, st.sampled_from([False, False, True])).map(lambda t: dict(t[0], loud=True) if t[1] else t[0])
+
+
+def judge(case):
+    import contextlib
+    import io
+    if not case.get("loud"):
+        return _judge(case)
+    with contextlib.redirect_stdout(io.StringIO()):
+        out = _judge(case)
+    out.label("silent=False")
+    return out
